@@ -229,3 +229,110 @@ func H20SetTypeConfusion() {
 	}
 	vAssert("c20/returned", true)
 }
+
+// H04SetNumeric: the typed-literal rule on number-like spellings: a value is
+// turned into an integer only when it is an optionally signed plain decimal
+// without a leading zero digit (or exactly "0"), and then it is that decimal
+// number; every other spelling (underscores, base prefixes, leading zeros)
+// stays the string that was given.
+func H04SetNumeric() {
+	n := ndIntRange("n", 1, vBound("numlen", 4))
+	v := ndStringIn("v", n, "0-9+_xb-")
+	m, err := Parse("a=" + v)
+	vAssert("numeric/noerr", err == nil)
+	// reference reading: [+-]? digits
+	i := 0
+	neg := false
+	if v[0] == '+' || v[0] == '-' {
+		neg = v[0] == '-'
+		i = 1
+	}
+	plain := i < n
+	val := int64(0)
+	for j := i; j < n; j++ {
+		if v[j] < '0' || v[j] > '9' {
+			plain = false
+			break
+		}
+		val = val*10 + int64(v[j]-'0')
+	}
+	if neg {
+		val = -val
+	}
+	switch got := m["a"].(type) {
+	case int64:
+		vAssert("numeric/int-only-for-plain-decimal", plain)
+		vAssert("numeric/int-is-the-decimal-reading", got == val)
+		vAssert("numeric/no-leading-zero-digit-int", v[0] != '0' || n == 1)
+	case string:
+		vAssert("numeric/string-is-verbatim", got == v)
+		vAssert("numeric/plain-decimal-without-leading-zero-is-int", !(plain && v[0] != '0'))
+	default:
+		vFail("numeric/unexpected-type")
+	}
+}
+
+// H04SetEscapes: a backslash makes the next rune literal — including another
+// backslash — and has no effect beyond that rune.
+func H04SetEscapes() {
+	v := ndAtom("v", 2)
+	w := ndAtom("w", 2)
+	vAssume(notKeyword(v) && notKeyword(w))
+	switch ndChoice("form", 5) {
+	case 0: // escaped backslash right before a pair separator
+		m, err := Parse("a=" + v + "\\\\,b=" + w)
+		vAssert("escape/bs-before-comma-noerr", err == nil)
+		vAssert("escape/bs-before-comma-first", m["a"] == v+"\\")
+		vAssert("escape/bs-before-comma-second", m["b"] == w && len(m) == 2)
+	case 1: // escaped backslash right before a name separator
+		m, err := Parse("a\\\\.b=" + v)
+		vAssert("escape/bs-before-dot-noerr", err == nil)
+		in, ok := m["a\\"].(map[string]interface{})
+		vAssert("escape/bs-before-dot-nests", ok && len(m) == 1 && in["b"] == v)
+	case 2: // escaped backslash before a list separator
+		m, err := Parse("l={" + v + "\\\\," + w + "}")
+		vAssert("escape/bs-in-list-noerr", err == nil)
+		l, ok := m["l"].([]interface{})
+		vAssert("escape/bs-in-list-two-items", ok && len(l) == 2 && l[0] == v+"\\" && l[1] == w)
+	case 3: // escaped comma stays in the value, the next pair is still parsed
+		m, err := Parse("a=" + v + "\\," + w + ",b=" + w)
+		vAssert("escape/comma-noerr", err == nil)
+		vAssert("escape/comma-kept", m["a"] == v+","+w && m["b"] == w)
+	case 4: // escaped '=' and '[' in a name
+		m, err := Parse("a\\=" + v + "\\[=" + w)
+		vAssert("escape/name-noerr", err == nil)
+		vAssert("escape/name", m["a="+v+"["] == w && len(m) == 1)
+	}
+}
+
+// H20SetDeep: arbitrary suffixes after the prefixes that reach the nested list /
+// nested map code ("a[0]", "a[0][0]", "a.b", "y[0]."), against destinations of
+// every shape: the recover wrappers must turn every type confusion into an error.
+func H20SetDeep() {
+	prefix := []string{"a[0]", "a[0][0]", "a[1][0]", "a.a", "y[0].", "a[0].a"}[ndChoice("prefix", 6)]
+	n := ndIntRange("n", 0, vBound("deeplen", 4))
+	s := prefix + ndStringIn("s", n, setAlphabet)
+	var a interface{}
+	switch ndChoice("ashape", 5) {
+	case 0:
+		a = "scalar"
+	case 1:
+		a = []interface{}{"x", map[string]interface{}{"a": int64(1)}}
+	case 2:
+		a = map[string]interface{}{"a": []interface{}{int64(1)}}
+	case 3:
+		a = nil
+	case 4:
+		a = []interface{}{[]interface{}{"deep"}, "x"}
+	}
+	dest := map[string]interface{}{"a": a, "y": []interface{}{int64(1)}}
+	switch ndChoice("entry", 3) {
+	case 0:
+		_ = ParseInto(s, dest)
+	case 1:
+		_ = ParseLiteralInto(s, dest)
+	case 2:
+		_ = ParseIntoString(s, dest)
+	}
+	vAssert("c20/deep-returned", true)
+}
